@@ -28,6 +28,59 @@ theorem single_fault_atomic (hist : List (Env × Req)) (env : Env) (req : Req) (
     FailedPost (runHistory hist {}) (processUpload env req (runHistory hist {})) :=
   failed_post env req _ (reachable_wf hist) e h
 
+/-- **single_fault_atomic** (detection part, "if any step fails"). Every fault of the property's list
+is answered with an error (so that `single_fault_atomic` applies), for any state `s`:
+* the part stream ends with an error (body cut in a part header or between parts), or some part is
+  not acceptable: its reader failed (body cut inside a file), it is a form field other than `commit`
+  (unknown field, client Abort), or it is a file without any benchmark line;
+* no file part at all;
+* a file-store fault (create / write / close, once or persistent) at any of the calls a fault-free
+  run of the request makes (`opsOf`: per file NewWriter, header lines + separator, one Write per read,
+  Close). -/
+theorem fault_is_reported (env : Env) (req : Req) (s : Sys)
+    (hf : req.endErr = true ∨ (∃ p ∈ req.parts, ¬ partOk p) ∨ (∀ p ∈ req.parts, ∃ name, p = Part.field name) ∨
+      (∃ ft, req.fault = some ft ∧ ft.k < opsOf env req.parts)) :
+    ∃ e, (processUpload env req s).resp = .error e := by
+  rcases hf with h | h | h | ⟨ft, h1, h2⟩
+  · exact structural_fault_is_error env req s (Or.inl h)
+  · exact structural_fault_is_error env req s (Or.inr h)
+  · exact no_file_is_error env req s h
+  · exact fs_fault_is_error env req s ft h1 h2
+
+/-- the two halves together: any listed fault after any history leaves the post-state of
+`single_fault_atomic` -/
+theorem single_fault_atomic_full (hist : List (Env × Req)) (env : Env) (req : Req)
+    (hf : req.endErr = true ∨ (∃ p ∈ req.parts, ¬ partOk p) ∨ (∀ p ∈ req.parts, ∃ name, p = Part.field name) ∨
+      (∃ ft, req.fault = some ft ∧ ft.k < opsOf env req.parts)) :
+    FailedPost (runHistory hist {}) (processUpload env req (runHistory hist {})) := by
+  obtain ⟨e, he⟩ := fault_is_reported env req (runHistory hist {}) hf
+  exact single_fault_atomic hist env req e he
+
+/-- non-trivial instance of the hypothesis: a write fault at the separator line of a one-file upload -/
+example : (processUpload ⟨20260930, [], []⟩
+    ⟨[Part.file [97] (Bytes.ofString "BenchmarkA 1 2 ns/op\n") false [21]], false, some ⟨4, false, false⟩⟩ {}).resp
+      = .error Err.fs := by decide +kernel
+
+/-- **success_complete_partial**. Index part of the success clause, after any history: the query
+`upload:<id>` of a successful upload returns exactly the benchmark lines of all its files — every
+one, once, in file order — and the id is new.
+GAP (not proved, checked byte for byte by the S layer on every successful upload of every run):
+"each file is stored once with the server's metadata header", i.e. that the store then holds
+`uploads/<id>/<part>.txt = sorted header ++ blank ++ content` for every file part. -/
+theorem success_complete_partial (hist : List (Env × Req)) (env : Env) (req : Req) (k : UKey) (fids : List Path)
+    (h : (processUpload env req (runHistory hist {})).resp = .ok (k, fids)) :
+    ((processUpload env req (runHistory hist {})).sys.db.queryUpload k).map (·.2) = partsLines req.parts ∧
+      k ∉ (runHistory hist {}).db.uploads ∧ (processUpload env req (runHistory hist {})).alloc = some k :=
+  success_records env req _ (reachable_wf hist) k fids h
+
+/-- a successful upload leaves everything of earlier uploads in place as well -/
+theorem success_keeps_earlier (hist : List (Env × Req)) (env : Env) (req : Req) :
+    (∀ row ∈ (runHistory hist {}).db.records, row ∈ (processUpload env req (runHistory hist {})).sys.db.records) := by
+  intro row hrow
+  rcases processUpload_cases env req (runHistory hist {}) with ⟨e, h⟩ | ⟨t, t', _, _, _, _, h⟩
+  · rw [h]; exact hrow
+  · rw [h]; exact List.mem_append_left _ hrow
+
 /-- **ids_format_monotone**. Along any history the ids handed out (also to uploads that failed
 afterwards: their Uploads row persists) are pairwise different, within one day strictly increasing in
 creation order, numbered from 1, never equal to a row that existed before, and every one of them is
